@@ -138,7 +138,7 @@ def build_set(cfg, tier, log=None):
         units.append((f"grp{k}", g.group_source(k, members), "group", members))
     small = []  # small typed sets share TUs (4 compositions each)
     for i, t in normal:
-        for part in g.typed_parts(t, tier):
+        for part in g.typed_parts(t, tier, cfg):
             mask = g.typed_mask(t, poly_any_ok, any_tracked_ok)
             if part == "m":
                 small.append((i, t, part, mask))
@@ -294,6 +294,9 @@ def check(prop, tier, only):
         for s in range(nsh):
             args = f"--set {tier} --shard {s}/{nsh} --compile-failures {shlex.quote(bs['failures_file'])}"
             jobs.append(checks.J(HARNESS, cfg, args, name=f"adapt[{cfg}] shard {s}/{nsh}"))
+    # aligned_allocator in detail (all four allocation members, misaligned leaf): also registered under C02
+    for cfg in cfgs:
+        jobs.append(checks.J("h_alignad", cfg, "", name=f"alignad[{cfg}]"))
     # run_enum_check builds per (harness, cfg) with one harness_kw: give it a build function that knows the cfg
     orig = vlib.build_harness
 
